@@ -41,6 +41,18 @@ let a_dur_parse p r text = answer dec_of_z (dur_parse p r text)
 let a_ts_to p r c = answer (fun (s, ns) -> dec_of_z s ^ " " ^ dec_of_z ns) (ts_to p r c)
 let a_ts_from is_tp p r s ns = answer dec_of_z ((if is_tp then ts_from_tp else ts_from_dur) p r s ns)
 
+(* ts.wire: To(value, CBinTimestamp&), WriteValue; then ReadValue(CBinTimestamp&), To(CBinTimestamp, value&) *)
+let a_ts_wire is_tp p r c =
+  match mp_save_chrono p r c with
+  | Ok bytes ->
+    (match mp_load_chrono (if is_tp then ts_from_tp else ts_from_dur) { o_mismatch = PThrow; o_overflow = PThrow } p r bytes with
+     | Loaded (v, rest) ->
+       (match v with
+        | Ok x -> if rest = [] then "OK " ^ fmt_hexbytes bytes ^ " " ^ dec_of_z x else "TRAILING"
+        | _ -> answer dec_of_z v)
+     | NotLoaded -> "NOTLOADED")
+  | o -> answer fmt_hexbytes o
+
 let per_of = function
   | "ns" -> (1, 1000000000) | "us" -> (1, 1000000) | "ms" -> (1, 1000) | "s" -> (1, 1) | "min" -> (60, 1)
   | "h" -> (3600, 1) | "d" -> (86400, 1) | "w" -> (604800, 1) | "r7" -> (7, 1) | "r5" -> (5, 1) | "r2_3" -> (2, 3)
@@ -119,6 +131,7 @@ let run_line (t : string array) : string =
   | "dur.parse16" -> answer dec_of_z (dur_parse_wide W16 (prec_of t.(1)) (rep_of t.(2)) (unit_list t.(3)))
   | "dur.parse32" -> answer dec_of_z (dur_parse_wide W32 (prec_of t.(1)) (rep_of t.(2)) (unit_list t.(3)))
   | "ts.to" -> let p = prec_of t.(2) and r = rep_of t.(3) in a_ts_to p r (count_of_string r t.(4))
+  | "ts.wire" -> let p = prec_of t.(2) and r = rep_of t.(3) in a_ts_wire (t.(1) = "tp") p r (count_of_string r t.(4))
   | "ts.from" ->
     let p = prec_of t.(2) and r = rep_of t.(3) in
     a_ts_from (t.(1) = "tp") p r (count_of_string I64 t.(4)) (count_of_string I32 t.(5))
